@@ -97,3 +97,29 @@ Fixpoint no_inherited_shadow (DN : list name) (x : stmt) : bool :=
 
 Definition shadow_guard (prog : list stmt) : bool :=
   forallb (no_inherited_shadow (flat_map def_names prog)) prog.
+
+(* ---- the namespaces of a module: the module itself and, recursively, every class that is documented under the
+   name Python binds it to ------------------------------------------------------------------------------- *)
+Inductive ns_at (c : contents_t) (e : env) : scope -> contents_t -> env -> Prop :=
+| ns_root : ns_at c e ScModule c e
+| ns_class : forall sc c1 e1 n x d c2 oo ih x' d' e2,
+    ns_at c e sc c1 e1 -> lookup n c1 = Some (OClass x d c2 oo ih) -> plookup n e1 = Some (VClass x' d' e2) ->
+    ns_at c e ScClass c2 e2.
+
+(* the kind pydoctor gives to an entry against what `inspect` says about the object Python bound *)
+Definition kind_ok (sc : scope) (o : obj) (v : pyval) : Prop :=
+  match o, v with
+  | OFun k a _, VFun a' w _ => a = a' /\ fkind_of sc w = Some k       (* function/method/classmethod/staticmethod, coroutine *)
+  | OAttr KProperty _ _ _, VFun _ WProp _ => sc = ScClass              (* property *)
+  | OClass _ _ _ _ _, VClass _ _ _ => True                             (* a class (CLASS or EXCEPTION) *)
+  | OAttr k _ _ _, VData _ => k <> KProperty                           (* a variable of some kind *)
+  | _, _ => False
+  end.
+
+(* the docstring pydoctor attaches to a function or class against __doc__ (before cleaning) *)
+Definition doc_ok (clean : text -> text) (o : obj) (v : pyval) : Prop :=
+  match o, v with
+  | OFun _ _ d, VFun _ _ d' => d = option_map clean d'
+  | OClass _ d _ _ _, VClass _ d' _ => d = option_map clean d'
+  | _, _ => True
+  end.
